@@ -19,6 +19,8 @@ mod c07;
 mod c08;
 mod c09;
 mod c10;
+mod c13;
+mod c14;
 mod c15;
 mod c16;
 mod c17;
@@ -138,6 +140,8 @@ fn main() {
             "C08" => c08::replay(&ctx, &v["replay"]),
             "C09" => c09::replay(&ctx, &v["replay"]),
             "C10" => c10::replay(&ctx, &v["replay"]),
+            "C13" => c13::replay(&ctx, &v["replay"]),
+            "C14" => c14::replay(&ctx, &v["replay"]),
             "C15" => c15::replay(&ctx, &v["replay"]),
             "C16" => c16::replay(&ctx, &v["replay"]),
             "C17" => c17::replay(&ctx, &v["replay"]),
@@ -159,6 +163,8 @@ fn main() {
         "C08" => c08::run(&ctx),
         "C09" => c09::run(&ctx),
         "C10" => c10::run(&ctx),
+        "C13" => c13::run(&ctx),
+        "C14" => c14::run(&ctx),
         "C15" => c15::run(&ctx),
         "C16" => c16::run(&ctx),
         "C17" => c17::run(&ctx),
